@@ -74,6 +74,9 @@ func (s *Server) referrerGet(repoStr, arg string) http.HandlerFunc {
 					w.Header().Add("Link", fmt.Sprintf("<%s>; rel=next", next.String()))
 				}
 				w.Header().Add("content-type", types.MediaTypeOCI1ManifestList)
+				if filterAT != "" {
+					w.Header().Add(referrerFilterATHeaderKey, referrerFilterATHeaderValue)
+				}
 				w.WriteHeader(http.StatusOK)
 				_, err = w.Write(cacheResp[page])
 				if err != nil {
@@ -115,6 +118,9 @@ func (s *Server) referrerGet(repoStr, arg string) http.HandlerFunc {
 				q.Set("page", fmt.Sprintf("%d", page+1))
 				next.RawQuery = q.Encode()
 				w.Header().Add("Link", fmt.Sprintf("<%s>; rel=next", next.String()))
+			}
+			if filterAT != "" {
+				w.Header().Add(referrerFilterATHeaderKey, referrerFilterATHeaderValue)
 			}
 			w.WriteHeader(http.StatusOK)
 			_, err = w.Write(cacheResp[page])
